@@ -247,14 +247,46 @@ def close_pool():
         _POOL[0] = None
 
 
+def _run_chunk(args):
+    fn, chunk = args
+    return [fn(j) for j in chunk]
+
+
+def rmap(fn, jobs, procs, chunksize, timeout=300, retries=2):
+    """ordered parallel map that cannot hang: results are awaited with a timeout; when one does not arrive (a lost
+    task: seen once, with all workers idle and the parent waiting for ever) the pool is torn down, a fresh one is made
+    and the jobs without a result are run again"""
+    out = []
+    attempt = 0
+    while len(out) < len(jobs):
+        pool = get_pool(procs)
+        rest = jobs[len(out):]
+        chunks = [(fn, rest[i:i + chunksize]) for i in range(0, len(rest), chunksize)]
+        it = pool.imap(_run_chunk, chunks, chunksize=1)
+        try:
+            for _ in chunks:
+                out.extend(it.next(timeout=timeout))
+        except multiprocessing.TimeoutError:
+            attempt += 1
+            sys.stderr.write('NOTE: no result within %ds after %d of %d jobs; restarting the worker pool (attempt %d)\n' % (
+                timeout, len(out), len(jobs), attempt))
+            try:
+                _POOL[0].terminate()
+            except Exception:
+                pass
+            _POOL[0] = None
+            if attempt > retries:
+                raise RuntimeError('worker pool lost results %d times' % attempt)
+    return out
+
+
 def run_groups(jobs, procs=None):
     """jobs: list of (group, seed, opts) -> list of results (same order)"""
     procs = procs or min(16, os.cpu_count() or 4)
     if procs == 1 or len(jobs) < 4:
         _init()
         return [_work(j) for j in jobs]
-    pool = get_pool(procs)
-    return pool.map(_work, jobs, chunksize=max(1, min(40, len(jobs) // (procs * 4) or 1)))
+    return rmap(_work, jobs, procs, max(1, min(40, len(jobs) // (procs * 4) or 1)))
 
 
 # ---- behaviour replay ---------------------------------------------------------------
@@ -359,8 +391,7 @@ def run_behaviours(jobs, procs=None):
     if procs == 1 or len(jobs) < 4:
         _init()
         return [_work_beh(j) for j in jobs]
-    pool = get_pool(procs)
-    return pool.map(_work_beh, jobs, chunksize=max(1, min(10, len(jobs) // (procs * 4) or 1)))
+    return rmap(_work_beh, jobs, procs, max(1, min(10, len(jobs) // (procs * 4) or 1)), timeout=600)
 
 
 def pmap(fn, jobs, procs=None, timeout=120):
@@ -368,9 +399,4 @@ def pmap(fn, jobs, procs=None, timeout=120):
     procs = procs or min(16, os.cpu_count() or 4)
     if len(jobs) < 3:
         return [fn(j) for j in jobs]
-    pool = get_pool(procs)
-    it = pool.imap(fn, jobs, chunksize=1)
-    out = []
-    for _ in jobs:
-        out.append(it.next(timeout=timeout))
-    return out
+    return rmap(fn, jobs, procs, 1, timeout=timeout)
